@@ -505,6 +505,9 @@ func C07() int {
 	// ---- (f) lines around and beyond the reader's limit
 	c07LongLines(s, c)
 
+	// ---- (g) the hostile line as the very first / very last line of the input
+	c07Edges(s, c, cases)
+
 	// ---- (e) thorough tier: Go native coverage-guided fuzzing on a scratch copy
 	if thorough(c) {
 		c07Fuzz(s, c)
@@ -703,4 +706,102 @@ func c07Fuzz(s *sut.SUT, c *ev.Check) {
 	} else if err != nil {
 		c.Set("fuzzing", "inconclusive: go test -fuzz failed to run: "+firstLine(tailN))
 	}
+}
+
+// c07Edges: "placed at any position of a multi-line input" includes the edges, which the
+// sandwiches never exercise (they open and close with a sentinel): the hostile line as the FIRST
+// line (start-of-stream handling: byte-order marks, sniffing) and as the LAST line with and without
+// a final newline, through a file and through stdin.
+func c07Edges(s *sut.SUT, c *ev.Check, cases []c07Case) {
+	var pick []c07Case
+	for _, x := range [][]byte{{}, []byte("\r"), []byte(" "), []byte("{}"), []byte("[]"), []byte("1"), []byte("x"), []byte("ab"), []byte("{"), []byte("}"), []byte("\xef\xbb\xbf"), []byte("\xef\xbb"), []byte("\xef"), []byte("\xff\xfe"), []byte("\xef\xbb\xbf{}"),
+		append([]byte("\xef\xbb\xbf"), c07Sentinel(900)...), []byte("\x00"), []byte("\x1f\x8b"), []byte("\x1f\x8b\x08")} {
+		pick = append(pick, c07Case{raw: x, kind: "edge-short"})
+	}
+	for i, hc := range cases {
+		if len(hc.raw) <= 12 || i%97 == 0 {
+			pick = append(pick, hc)
+		}
+	}
+	c.Set("edge_position_lines", len(pick))
+	parallelDo(len(pick)*4, func(j int) {
+		hc, variant := pick[j/4], j%4
+		m := c07Modes[(j/4)%len(c07Modes)]
+		if m.f.Enc && variant >= 2 {
+			m = c07Modes[0] // --encrypt needs a file argument
+		}
+		dir := s.TempDir("c07e")
+		defer os.RemoveAll(dir)
+		var buf bytes.Buffer
+		first := variant%2 == 0
+		if first {
+			buf.Write(hc.raw)
+			buf.WriteByte('\n')
+			buf.Write(c07Sentinel(0))
+			buf.WriteByte('\n')
+			buf.Write(c07Sentinel(1))
+			buf.WriteByte('\n')
+		} else {
+			buf.Write(c07Sentinel(0))
+			buf.WriteByte('\n')
+			buf.Write(c07Sentinel(1))
+			buf.WriteByte('\n')
+			buf.Write(hc.raw)
+			if (j/4)%2 == 0 {
+				buf.WriteByte('\n')
+			}
+		}
+		key := filepath.Join(dir, "k.key")
+		if m.f.Enc {
+			os.WriteFile(key, []byte(TestKeyB64), 0o600)
+		}
+		args := append([]string{"redact"}, m.f.Args(j, key)...)
+		run := sut.Run{Dir: dir}
+		outp := filepath.Join(dir, "out.log")
+		if variant < 2 {
+			in := filepath.Join(dir, "in.log")
+			os.WriteFile(in, buf.Bytes(), 0o644)
+			args = append(args, in)
+			if m.f.Enc {
+				args = append(args, "-o", outp)
+			}
+		} else {
+			run.Stdin = buf.Bytes()
+		}
+		run.Args = args
+		r := s.CLI(run)
+		if r.TimedOut {
+			c.Inconclusive("watchdog on an edge-position run")
+			return
+		}
+		out := r.Stdout
+		if variant < 2 && m.f.Enc {
+			out, _ = os.ReadFile(outp)
+		}
+		c.Count("edge_position_runs", 1)
+		c.Eval(fmt.Sprintf("edge|%d|%d|%s", j/4, variant, m.name))
+		pos := map[bool]string{true: "first", false: "last"}[first]
+		rp := c07Replay(m, hc, splitLines(out))
+		rp["position"], rp["channel"] = pos, map[bool]string{true: "file", false: "stdin"}[variant < 2]
+		if r.Exit != 0 || sut.Crashed(r.Stderr) {
+			c.Violation("run-aborted|"+pos+"-line|"+hc.kind, fmt.Sprintf("the hostile line %q as the %s line of the input: exit %d %s: %s (mode %s)", short(hc.raw, 40), pos, r.Exit, r.Signal, short(bytes.TrimSpace(r.Stderr), 200), m.name), rp)
+			return
+		}
+		ls := splitLines(out)
+		var sent []int
+		extra := 0
+		for i, ln := range ls {
+			if bytes.Contains(ln, []byte(`"ctx":"vqS0m"`)) || bytes.Contains(ln, []byte(`"ctx":"vqS1m"`)) {
+				sent = append(sent, i)
+			} else {
+				extra++
+				if _, err := jt.ParseObject(ln); err != nil {
+					c.Violation("ill-formed-output|"+pos+"-line|"+hc.kind, fmt.Sprintf("output line %d is not one well-formed JSON object (hostile line %s): %s", i, pos, short(ln, 160)), rp)
+				}
+			}
+		}
+		if len(sent) != 2 || extra > 1 {
+			c.Violation("lines-lost-or-added|"+pos+"-line|"+hc.kind, fmt.Sprintf("hostile line %q as the %s line: %d of the 2 ordinary lines came out, %d other lines (mode %s)", short(hc.raw, 40), pos, len(sent), extra, m.name), rp)
+		}
+	})
 }
